@@ -19,7 +19,8 @@ import sys
 import framework
 import tlc
 
-sys.path.insert(0, "/repo")
+import paths  # noqa: E402
+sys.path.insert(0, paths.REPO)
 
 USER_NAMES = ["a", "b", "k", "x"]
 BUILTINS = ["event", "source", "target", "state", "model", "machine", "transition", "event_data"]
